@@ -1,5 +1,6 @@
 /- Driver op `hist.fs`: is the recorded file-system trace of a creation run disciplined? -/
 import JubakoModel.Model.AtomicFs
+import JubakoModel.Model.BasicCreatorFs
 import Driver.Util
 
 namespace Jubako.Driver
@@ -25,9 +26,14 @@ def parseFsOps (s : String) : Option (List FsOp) :=
 
 def isTempName (p : FPath) : Bool := p.startsWith ".tmp"
 
-/-- args: entry name, comma list of pre-existing names (or `-`), the ops -/
-def runFsHist (args : List String) : String :=
-  match args with
+def modeOfString : String → Option ConcatMode
+  | "onefile" => some .oneFile
+  | "twofiles" => some .twoFiles
+  | "noconcat" => some .noConcat
+  | _ => none
+
+def runFsHist3 (entry old ops : String) : String :=
+  match [entry, old, ops] with
   | [entry, old, ops] =>
     match parseFsOps ops with
     | some t =>
@@ -51,6 +57,21 @@ def runFsHist (args : List String) : String :=
             | none => s!"not-disciplined at op {i}: {repr op}"
         firstBad ⟨[], [], [], false⟩ 0 t
     | none => "bad-ops"
+  | _ => "bad-args"
+
+/-- args: [mode,] entry name, comma list of pre-existing names (or `-`), the ops.  With a mode the
+    answer also says whether the recorded trace is an instance of the model's `creationTrace` for
+    that packaging (the object of `c09_modes`). -/
+def runFsHist (args : List String) : String :=
+  match args with
+  | [entry, old, ops] => runFsHist3 entry old ops
+  | [mode, entry, old, ops] =>
+    match modeOfString mode, parseFsOps ops with
+    | some m, some t =>
+      let inst := if isCreationInstance m entry t then "instance-of-model" else
+        s!"NOT-instance-of-model shape={repr (eraseWrites t)}"
+      runFsHist3 entry old ops ++ " " ++ inst
+    | _, _ => "bad-args"
   | _ => "bad-args"
 
 end Jubako.Driver
